@@ -9,7 +9,7 @@ hooks = subprocess.run(["git", "-C", "/repo", "log", "--format=%H", "--grep=^ver
 NOTE = ("Trusted: Lean 4.33 kernel (axioms propext, Classical.choice, Quot.sound only; audited with #print axioms on every run), "
         "factgen + Expect.lean, the correspondence harness and its generators/fakes (vnet sockets, libif, synctest clock), Go toolchain. "
         "The theorems are about the hand-written Lean model; the model is tied to /repo by the differential correspondence and the "
-        "regenerated source facts on every check; for the functions listed in DESIGN.md §13 a Lean translation of the Go source is regenerated "
+        "regenerated source facts on every check; for the functions listed in DESIGN.md §13-14 a Lean translation of the Go source is regenerated "
         "on every check and proved equal to the model (trusted there: the translator /verif/xlate and lean/PsaDhcp/Go/Prelude.lean). ")
 checks = []
 for pid in sorted(PROPS):
@@ -24,7 +24,7 @@ for pid in sorted(PROPS):
         "level_note": NOTE + c.get("partial", ""),
         "technique": c.get("technique", "Lean 4 theorems over a hand-written executable model + differential correspondence against the Go code + regenerated source facts")
                      + (" + Lean translation of the Go source regenerated on every run (xlate) with proofs that it equals the model (modules %s)"
-                        % ", ".join(m for m in c["props"] if m.endswith("Code")) if any(m.endswith("Code") for m in c["props"]) else ""),
+                        % ", ".join(m for m in c["props"] if "Code" in m) if any("Code" in m for m in c["props"]) else ""),
     })
 claimed = {c["property_id"] for c in checks}
 na = []
